@@ -4,7 +4,7 @@
 # LzProofs/Gen{HP,BHP,DHP,BDHP,BUP,GSAP}ParseNil.lean / Gen*HistNil.lean (gen_<p>_parseNil: translated Parse with a
 # nil block = ProbeW.parseNilW / Parser.parseNil; C14_go_text_<p>).
 #
-# Mechanics of genhp_selftest.sh: for every mutant copy the repository to <verif>/scratch-repo, apply one small
+# Mechanics of genhp_selftest.sh: for every mutant copy the repository to a fresh directory under /tmp, apply one small
 # change, regenerate LzModel/Generated/Code*.lean from the copy into a COPY of the lake project, and build
 # $TARGETS there.
 #   kind proof    : the build must FAIL (the failing theorems are listed)
@@ -23,7 +23,7 @@ REPO="${REPO:-/repo}"
 SCRATCH="$(mktemp -d /tmp/pf-gennil-selftest.XXXXXX)"
 LEAN="$SCRATCH/lean"
 GEN="$LEAN/LzModel/Generated"
-MUT="$HERE/scratch-repo"
+MUT="$(mktemp -d /tmp/pf-mutrepo.XXXXXX)/scratch-repo"   # scratch copies of the library live outside /verif and /repo
 EXTRACT="$SCRATCH/extract"
 TARGETS="${TARGETS:-LzProofs.GenHPHistNil LzProofs.GenBHPHistNil LzProofs.GenDHPHistNil LzProofs.GenBDHPHistNil LzProofs.GenBUPHistNil LzProofs.GenGSAPHistNil}"
 bad=0; good=0; total=0
